@@ -250,7 +250,7 @@ def replay(path):
         print(json.dumps(obj, indent=1)[:4000])
         print("(no replayable request list: this replay names the obligation/correspondence that no longer checks)")
         sys.exit(1)
-    qs = [{"u": x["u"], "b": x["b"], "seed": x["seed"], "cls": bytes(x["cls"]), "title": bytes(x["title"]), "lines": [bytes(l) for l in x["lines"]], "kind": "replay"} for x in reqs]
+    qs = [{"u": x["u"], "b": x["b"], "seed": x["seed"], "cls": bytes(x["cls"]), "title": bytes(x["title"]), "lines": [bytes(l) for l in x["lines"]], "kind": "replay", "edge": x.get("edge", 0)} for x in reqs]
     impl = vf.build_impl()
     out = vf.run_impl(impl, "C09", ["0", "2"] + [impl_line(q) for q in qs], deadline_ms=20000)
     sc = parse_scenario(out[0])
@@ -286,10 +286,11 @@ def gen_cases(c):
         return bytes(rng.choice(letters) for _ in range(n))
 
     # A. every title length 0..70, both class lengths, the three kinds of author
-    for u in range(3):
-        for cls in (b"", b"test"):
-            for n in range(71):
-                singles.append(req(u, (n + u) % 2, cls, rtitle(n), body0 if n % 7 else [], "title-len"))
+    for rep in range(8 if thorough else 1):
+        for u in range(3):
+            for cls in (b"", b"test"):
+                for n in range(71):
+                    singles.append(req(u, (n + u + rep) % 2, cls, rtitle(n), body0 if (n + rep) % 7 else [], "title-len"))
     # B. titles that start with the announcement tag or with a proper prefix of it; class equal to the tag's inside
     for u in range(3):
         for cls in (b"", b"test", TAG[1:5]):
@@ -310,7 +311,7 @@ def gen_cases(c):
     for i, t in enumerate(specials):
         for u in range(3):
             singles.append(req(u, (i + u) % 2, [b"", b"test", b"\x1b[1m", b"a\0bc"][(i + u) % 4], t, body0, "title-bytes"))
-    for _ in range(200 if thorough else 40):
+    for _ in range(2000 if thorough else 40):
         n = rng.randrange(0, 71)
         singles.append(req(rng.randrange(3), rng.randrange(2), rng.choice([b"", bytes(rng.randrange(256) for _ in range(4))]),
                            bytes(rng.choice([0, 10, 27, 32, 91, 93, 0xa4, 0xbd, 0x80, 0xff, 65, 66, 48]) if rng.random() < 0.5 else rng.randrange(256) for _ in range(n)),
@@ -329,7 +330,7 @@ def gen_cases(c):
         for u in range(3):
             singles.append(req(u, (i + u) % 2, [b"", b"test"][(i + u) % 2], rtitle(10 + i), bd, "body"))
     alpha = [0, 27, 27, 32, 32, 32, ord("["), ord(";"), ord(","), ord("1"), ord("9"), ord("A"), ord("H"), ord("J"), ord("f"), ord("j"), ord("u"), ord("R"), ord("m"), ord("s"), ord("x"), 9, 13, 0x80, 0xa4, 0xfe]
-    for _ in range(600 if thorough else 90):
+    for _ in range(6000 if thorough else 90):
         nl = rng.randrange(0, 7)
         bd = [bytes(rng.choice(alpha) for _ in range(rng.randrange(0, 14))) for _ in range(nl)]
         if rng.random() < 0.4:
@@ -339,7 +340,7 @@ def gen_cases(c):
     for i in range(0, len(singles), 6):
         groups.append(singles[i:i + 6])
     # F. sequences of up to five posts over the two boards (same and different authors)
-    for _ in range(300 if thorough else 45):
+    for _ in range(2000 if thorough else 45):
         k = rng.randrange(2, 6)
         seq = []
         b_first = rng.randrange(2)
@@ -348,11 +349,19 @@ def gen_cases(c):
             t = rng.choice([rtitle(rng.randrange(0, 71)), TAG + rtitle(5), TAG[:rng.randrange(1, 6)], b""])
             seq.append(req(rng.randrange(3), b_first if rng.random() < 0.5 else rng.randrange(2), rng.choice([b"", b"test"]), t, bd, "sequence"))
         groups.append(seq)
+    # G. posts started a few hundred microseconds before the wall-clock second changes: the clock readings of one
+    #    post differ (stamp / header / second stamp), which the model takes as three separate observed inputs
+    edge = []
+    for us in ([150, 400, 900, 250, 600, 1500] if thorough else [300, 700]):
+        q = req(rng.randrange(3), rng.randrange(2), b"test", rtitle(20), body0, "second-boundary")
+        q["edge"] = us
+        edge.append(q)
+    groups.append(edge)
     return groups
 
 
 def impl_line(q):
-    return "1|%d %d %d|%s|%s|%s|%s" % (q["u"], q["b"], q["seed"], tk(q["cls"]), tk(q["title"]), enc_lines(q["lines"]), tk(IP))
+    return "1|%d %d %d %d|%s|%s|%s|%s" % (q["u"], q["b"], q["seed"], q.get("edge", 0), tk(q["cls"]), tk(q["title"]), enc_lines(q["lines"]), tk(IP))
 
 
 def model_line(sc, pre, reqs):
@@ -401,7 +410,7 @@ def main():
     def replay_obj(gi, qi, extra=None):
         cases = ["2"] + [impl_line(q) for q in groups[gi][:qi + 1]]
         o = {"cases": cases, "request": describe(groups[gi][qi]),
-             "requests": [{"u": q["u"], "b": q["b"], "seed": q["seed"], "cls": list(q["cls"]), "title": list(q["title"]), "lines": [list(l) for l in q["lines"]]} for q in groups[gi][:qi + 1]]}
+             "requests": [{"u": q["u"], "b": q["b"], "seed": q["seed"], "cls": list(q["cls"]), "title": list(q["title"]), "lines": [list(l) for l in q["lines"]], "edge": q.get("edge", 0)} for q in groups[gi][:qi + 1]]}
         if extra:
             o.update(extra)
         return o
